@@ -104,7 +104,9 @@ def order_domain(ctx, repo):
 
     # ---- O1: activity predicate, found from load_functions_for_date through the call graph
     lf = find_function(pe, "load_functions_for_date", "primary anchor")
-    cands = [lf] + [pe.functions[n.func.id] for n in ast.walk(lf) if isinstance(n, ast.Call) and isinstance(n.func, ast.Name) and n.func.id in pe.functions]
+    from staticlib.guards import scope_functions as _scope_fns
+
+    cands = _scope_fns(pe, lf)
     act_expr = act_fn = None
     for fn in cands:
         for n in ast.walk(fn):
@@ -123,6 +125,18 @@ def order_domain(ctx, repo):
                 if {"start_date", "end_date"} <= keys and isinstance(t, (ast.Compare, ast.BoolOp, ast.UnaryOp)):
                     if act_expr is None:
                         act_expr, act_fn = t, fn
+    if act_expr is None:
+        from staticlib.ordersem import NotExpressible, function_as_expression
+
+        for fn in cands:
+            try:
+                e_ = function_as_expression(fn)
+            except NotExpressible:
+                continue
+            keys = {_info_key(x) for x in ast.walk(e_)} - {None}
+            if {"start_date", "end_date"} <= keys and isinstance(e_, (ast.Compare, ast.BoolOp, ast.UnaryOp)):
+                act_expr, act_fn = e_, fn
+                break
     if act_expr is None:
         from staticlib.guards import scope_functions as _scope
 
@@ -177,12 +191,43 @@ def order_domain(ctx, repo):
         if isinstance(node, ast.Call) and isinstance(node.func, ast.Name) and node.func.id in pe.functions:
             fn_ = pe.functions[node.func.id]
             ks = {_info_key(x) for x in ast.walk(fn_)} - {None}
-            return "A" if {"start_date", "end_date"} <= ks else "T"
+            return "A" if ({"start_date", "end_date"} <= ks or fn_ is act_fn) else "T"
         if ast.unparse(node) == ast.unparse(act_expr):
             return "A"
         return None
 
-    names, conj = atoms_and_eval(dom.of(store), atom)
+    from staticlib.ordersem import NotExpressible as _NE, function_as_expression as _fae
+
+    def is_leaf(fn_):
+        return "__info__" in ast.unparse(fn_)
+
+    class _InlinePred(ast.NodeTransformer):
+        depth = 0
+
+        def visit_Call(self, c):
+            self.generic_visit(c)
+            if isinstance(c.func, ast.Name) and c.func.id in pe.functions and not is_leaf(pe.functions[c.func.id]) and self.depth < 4:
+                h = pe.functions[c.func.id]
+                try:
+                    body = _fae(h)
+                except _NE:
+                    return c
+                hp = [a.arg for a in h.args.posonlyargs + h.args.args + h.args.kwonlyargs]
+                bound = dict(zip(hp, c.args))
+                bound.update({kw.arg: kw.value for kw in c.keywords if kw.arg})
+
+                class _Sub(ast.NodeTransformer):
+                    def visit_Name(self, n_):
+                        return bound.get(n_.id, n_) if isinstance(n_.ctx, ast.Load) else n_
+
+                self.depth += 1
+                r_ = self.visit(_Sub().visit(body))
+                self.depth -= 1
+                return r_
+            return c
+
+    conds_ = [(ast.fix_missing_locations(_InlinePred().visit(ast.parse(ast.unparse(t), mode="eval").body)), pol) for t, pol in dom.of(store)]
+    names, conj = atoms_and_eval(conds_, atom)
     if not set(names) <= {"T", "A"}:
         raise AnalysisError(f"selection guard in load_functions_for_date involves more than the two tests: {names}")
     bad = []
@@ -284,10 +329,12 @@ def order_domain(ctx, repo):
                 left = e.left
                 if isinstance(left, ast.Name) and left.id in la and len(la[left.id]) == 1:
                     left = la[left.id][0]
-                if kws == {"days": 1} and isinstance(left, ast.Call) and ast.unparse(left.func) in ("numpy.max", "np.max", "max"):
+                if kws == {"days": 1} and ((isinstance(left, ast.Call) and ast.unparse(left.func) in ("numpy.max", "np.max", "max")) or (isinstance(left, ast.Subscript) and ast.unparse(left.slice) == "-1")):
                     return "day-before-entry"
                 return "?"
             if isinstance(e, ast.Call) and ast.unparse(e.func) in ("numpy.max", "np.max", "max", "numpy.min", "np.min", "min"):
+                return "entry-date"
+            if isinstance(e, ast.Subscript) and ast.unparse(e.slice) in ("-1", "0") and isinstance(e.value, ast.Name):
                 return "entry-date"
             if isinstance(e, ast.Call) and isinstance(e.func, ast.Name) and e.func.id in helpers_by_name:
                 h = helpers_by_name[e.func.id]
@@ -307,8 +354,30 @@ def order_domain(ctx, repo):
             if isinstance(c, ast.Call) and isinstance(c.func, ast.Name) and c.func.id == lname:
                 darg = c.args[0] if c.args else next((kw.value for kw in c.keywords if kw.arg == date_name), None)
                 if darg is not None:
+                    if f_ is not loader and isinstance(darg, ast.Name) and darg.id in params_ and not branch_words(c):
+                        continue  # a pass-through helper: judged at its call sites (below)
                     out.append((c, date_kind(darg), branch_words(c)))
+            # a call of a pass-through helper (it hands one of its parameters to the loader as the date)
+            if isinstance(c, ast.Call) and isinstance(c.func, ast.Name) and c.func.id in passthrough and c.func.id != f_.name:
+                h, hp_ = passthrough[c.func.id]
+                hparams = [a.arg for a in h.args.posonlyargs + h.args.args + h.args.kwonlyargs]
+                bound = dict(zip(hparams, c.args))
+                bound.update({kw.arg: kw.value for kw in c.keywords if kw.arg})
+                if hp_ in bound:
+                    out.append((c, date_kind(bound[hp_]), branch_words(c)))
         return out
+
+    # helpers that pass one of their own parameters to the loader as the date, outside any keyword branch
+    passthrough = {}
+    for h in scope_all:
+        if h is loader:
+            continue
+        hparams = [a.arg for a in h.args.posonlyargs + h.args.args + h.args.kwonlyargs]
+        for c in ast.walk(h):
+            if isinstance(c, ast.Call) and isinstance(c.func, ast.Name) and c.func.id == lname:
+                darg = c.args[0] if c.args else next((kw.value for kw in c.keywords if kw.arg == date_name), None)
+                if isinstance(darg, ast.Name) and darg.id in hparams:
+                    passthrough[h.name] = (h, darg.id)
 
     want_by_word = {"previous": "day-before-entry", "vorjahr": "year-earlier", "jahresanfang": "jan-1"}
     seen_kinds = set()
@@ -521,6 +590,10 @@ def _selector_in(ctx, pe, fn, rid, dparam):
     for p in picks:
         txt = ast.unparse(p)
         srt = isinstance(la.get(listname), ast.Call) and ast.unparse(la[listname].func) == "sorted"
+        if not srt and isinstance(la.get(listname), (ast.ListComp,)):
+            # an order-preserving filter of a sorted list is sorted
+            src_ = la[listname].generators[0].iter
+            srt = isinstance(src_, ast.Name) and isinstance(la.get(src_.id), ast.Call) and ast.unparse(la[src_.id].func) == "sorted"
         good = txt.split("(")[0] in ("numpy.max", "np.max", "max") or (txt.endswith("[-1]") and srt)
         ctx.ob(rid, ok=good, distinct=txt)
         if not good:
